@@ -16,6 +16,12 @@ R4  plane / line fit    map_geometry.compute_normal and compute_tangent, evaluat
                         point set: unit length, orthogonal to (parallel to) the differences of the points, and
                         f(Q X + tau) == +-Q f(X) (the sign of the fitted vector is documented as arbitrary)
 R5  totality            the moved grid is processed without raising and on the same path as the original grid
+R6  decisions           every data-dependent decision taken on the way (comparison, tolerance test, isclose, argmax key, sign pulled
+                        out of a square root) is logged with its deciding term; a term of the moved evaluation that contains tau
+                        is examined: a far translation at which it falls the other way is searched (decades up to 1e8, nine
+                        directions), the grid - and for 2-d two NON-CONVEX twins with opposite loop directions, for which the convex
+                        fall-back is not harmless - is moved by that CONCRETE translation and its geometry compared with the
+                        original; a difference or a failure there is the finding, otherwise the dependence is a note
 
 Instances: the C19 instances with the translation symbols added, plus a line parallel to the z-axis and a grid in the
 plane x = const (formulas that single out a coordinate degenerate exactly there).  Quick tier: general line, vertical
@@ -52,7 +58,7 @@ META = {
     "technique": "abstract interpretation of the array kernels to closed-form terms on small symbolic grids, evaluated for X and for Q X + tau; "
                  "covariance decided as polynomial identities (sympy polynomial rings as term normaliser)",
 }
-MIN_INSTANCES = {"R1": 30, "R2": 20, "R3": 30, "R4": 16, "R5": 4}
+MIN_INSTANCES = {"R1": 30, "R2": 20, "R3": 30, "R4": 16, "R5": 4, "R6": 4}
 
 
 def _rot(axis, c, s):
@@ -70,9 +76,11 @@ Q2 = _rot((2, -1, 2), sp.Rational(5, 13), sp.Rational(12, 13))
 MOTIONS = {"Q1+tau": (Q1, True), "Q2": (Q2, False)}
 
 
-def move(fam: Fam, X: np.ndarray, Q, with_tau: bool) -> np.ndarray:
-    """Q X (+ tau) for a 3 x n object array of terms"""
+def move(fam: Fam, X: np.ndarray, Q, with_tau: bool, tau_vec=None) -> np.ndarray:
+    """Q X (+ tau) for a 3 x n object array of terms; tau symbolic, or the concrete rational vector tau_vec"""
     tau = [fam.from_expr(t) for t in TAU] if with_tau else [0, 0, 0]
+    if tau_vec is not None:
+        tau = [sp.Rational(v) for v in tau_vec]
     out = np.empty(X.shape, dtype=object)
     for j in range(X.shape[1]):
         for i in range(3):
@@ -100,7 +108,7 @@ def _zero_all(ctx, fam, rule, resid, q, fn, construct, what):
               construct=construct, facts=wit)
 
 
-def check_motion(ctx: Ctx, inst: Instance, base, moved_out, mname: str, Q, with_tau: bool, fn) -> None:
+def check_motion(ctx: Ctx, inst: Instance, base, moved_out, mname: str, Q, with_tau: bool, fn, tau_vec=None) -> None:
     fam = inst.fam
     q = KERNEL[inst.dim]
     tag = f"[{inst.name}] {mname}:"
@@ -115,6 +123,8 @@ def check_motion(ctx: Ctx, inst: Instance, base, moved_out, mname: str, Q, with_
         return
     ctx.check("R5", True, GRID, q, fn, f"instance {inst.name} moved by {mname}: compute_geometry runs through", construct=f"{tag} moved grid runs through")
     tau = [fam.from_expr(t) for t in TAU] if with_tau else [0, 0, 0]
+    if tau_vec is not None:
+        tau = [sp.Rational(v) for v in tau_vec]
     nf, nc = len(inst.face_loops), len(inst.cells)
     for f in range(nf):
         _zero_all(ctx, fam, "R1", [res["face_areas"][f] - base["face_areas"][f]], q, fn, f"{tag} area of face {f}",
@@ -210,6 +220,103 @@ def instances(tier: str) -> list[Instance]:
     return out
 
 
+DIRECTIONS = [(1, 1, 1), (1, 0, 0), (0, 1, 0), (0, 0, 1), (-1, -1, -1), (-1, 0, 0), (0, -1, 0), (0, 0, -1), (2, -3, 5)]
+FAR = [10 ** k for k in range(1, 9)]
+
+
+def _concrete_motion(ctx: Ctx, make, mname: str, Q, tau_vec, fn):
+    """findings of the covariance rules R1-R3/R5 for a fresh copy of an instance moved by Q and the CONCRETE translation tau_vec"""
+    inst2 = make()
+    scratch = Ctx(ctx.prop, ctx.repo, ctx.tier)
+    for attempt in (0, 1):
+        try:
+            base_out = run_kernel(ctx.repo, inst2)
+            if base_out.fault is not None:
+                return []
+            base, problem = outputs(inst2, base_out.grid)
+            if problem:
+                return []
+            moved = run_kernel(ctx.repo, inst2, nodes=move(inst2.fam, _tnodes(inst2), Q, False, tau_vec))
+            check_motion(scratch, inst2, base, moved, f"{mname} with tau = {tuple(tau_vec)}", Q, False, fn, tau_vec)
+            return scratch.findings
+        except Undecided as e:
+            if attempt or "differently on the placements" not in str(e):
+                raise
+            inst2, scratch = inst2.single(), Ctx(ctx.prop, ctx.repo, ctx.tier)
+    return scratch.findings
+
+
+def position_clause(ctx: Ctx, inst: Instance, log: list, mname: str, Q, fn) -> None:
+    """R6: a data-dependent decision taken while the grid Q X + tau is processed must not depend on tau.  For a decision term that contains
+    tau, look for a far translation at which it falls the other way, move the grid (and, for 2-d grids, two non-convex twins with
+    opposite loop directions, where the convex fall-back is not harmless) by Q and that CONCRETE translation and compare the results
+    with those of the original grid: only a difference (or a failure) THERE is a finding."""
+    fam = inst.fam
+    q = KERNEL[inst.dim]
+    tag = f"[{inst.name}] {mname}:"
+    suspects = []
+    for what, t, sg, where in log:
+        if not fam.mentions(t, TAU):
+            continue
+        far = None
+        for lam in FAR:
+            for u_ in DIRECTIONS:
+                v = fam.value_at(t, {TAU[i]: lam * u_[i] for i in range(3)})
+                if v is not None and v != 0.0 and (v > 0) != (sg > 0):
+                    far = tuple(lam * c for c in u_)
+                    break
+            if far:
+                break
+        suspects.append((what, where, far))
+        if len(suspects) > 60:
+            break
+    failures, tried = [], set()
+    for what, where, far in suspects:
+        if far is None:
+            continue
+        makers = [inst.remake]
+        if inst.dim == 2:
+            makers += [lambda: plane_instance(concave=True, tau=True), lambda: plane_instance(concave=True, mirrored=True, tau=True)]
+        for mk_i, make in enumerate(makers):
+            for mult in (1, 100):
+                tv = tuple(c * mult for c in far)
+                if (mk_i, tv) in tried or len(tried) >= 12:
+                    continue
+                tried.add((mk_i, tv))
+                try:
+                    fnds = _concrete_motion(ctx, make, mname.split("+")[0], Q, tv, fn)
+                except Undecided as e:
+                    ctx.note(f"{tag} position independence: the grid moved by tau = {tv} could not be decided ({str(e)[:120]})")
+                    continue
+                if fnds:
+                    failures.append((what, where, tv, fnds))
+        if failures and failures[-1][0] == what:
+            continue
+    noted = set()
+    for what, where, far in suspects:
+        if not any(w == what for w, _, _, _ in failures) and what not in noted:
+            noted.add(what)
+            ctx.note(f"{tag} the decision `{what}` in {where[1]} depends on the position of the grid"
+                     + (f" (it falls the other way after the translation {far})" if far else " (no translation up to 1e8 makes it fall the other way)")
+                     + "; the results of the moved grids that were examined agree with the original")
+    if not failures:
+        ctx.check("R6", True, GRID, q, fn, f"instance {inst.name}, motion {mname}: no data-dependent decision depends on the translation, or the moved grid "
+                  f"still gives the moved geometry where it falls the other way ({len(log)} decisions, {len(suspects)} depend on tau)",
+                  construct=f"{tag} decisions independent of the position")
+        return
+    seen = set()
+    for what, where, tv, fnds in failures:
+        cons = f"{tag} position: {c19.decision_kind(what)} in {where[1]}"
+        if cons in seen:
+            continue
+        seen.add(cons)
+        f0 = fnds[0]
+        ctx.check("R6", False, where[0] or GRID, where[1] or q, fn, f"the decision `{what}` depends on where the grid lies: after the rigid motion "
+                  f"{mname.split('+')[0]} followed by the translation {tv} it falls the other way and the geometry is no longer the moved geometry: "
+                  f"[{f0.rule}] {f0.message[:300]}", construct=cons,
+                  facts={"translation": [str(c) for c in tv], "decision": what, "failed": [f"{f.rule} {f.construct}" for f in fnds[:6]]})
+
+
 def _one_instance(ctx: Ctx, inst: Instance, ms, tier: str) -> None:
     fn = ms.get(KERNEL[inst.dim].split(".")[1]) or ms["compute_geometry"]
     base_out = run_kernel(ctx.repo, inst)
@@ -227,8 +334,11 @@ def _one_instance(ctx: Ctx, inst: Instance, ms, tier: str) -> None:
     for mname, (Q, with_tau) in MOTIONS.items():
         if mname == "Q2" and tier != "thorough":
             continue     # the second rotation (needed for the density argument, not for finding faults) runs in the thorough tier
-        moved = run_kernel(ctx.repo, inst, nodes=move(inst.fam, X, Q, with_tau))
+        log: list = []
+        moved = run_kernel(ctx.repo, inst, nodes=move(inst.fam, X, Q, with_tau), log=log)
         check_motion(ctx, inst, base, moved, mname, Q, with_tau, fn)
+        if with_tau and moved.fault is None:
+            position_clause(ctx, inst, log, mname, Q, fn)
     if inst.dim == 1:
         check_fit(ctx, ctx.repo, inst, "compute_tangent", tier)
     if inst.dim == 2 and "unoriented" in inst.name or inst.name == "plane-vertical":
